@@ -77,3 +77,10 @@ CHECKS["C12"] = {
         _sub("TestC12_Changes", 2000, 60000, sq=16, st=16),
     ],
 }
+
+CHECKS["C13"] = {
+    "level": "exploration",
+    "subs": [
+        _sub("TestC13_ReadOnly", 2000, 60000, sq=16, st=16),
+    ],
+}
